@@ -150,6 +150,10 @@ LOOP_EXIT = {
                                         (list (list '!f)))))))))))""",
 }
 
+DEF_VIA_TMP = """(define-syntax def-via-tmp (syntax-rules () ((_ !name !v)
+                  (begin (define !tmp !v) (define !name (+ !tmp 1))))))"""
+MY_LIST_CE = "(define-syntax my-list (syntax-rules ::: () ((_ (!x !y) :::) (list (cons !x !y) :::))))"
+
 # name, {kind: macro text}, other definitions, user top-level definitions, program, expected, {class: [binders]}
 SHAPES = []
 
@@ -232,6 +236,14 @@ shape("definition-context-top", DEF2, "(+ ?p ?q)", "6", tdefs="(def2 ?p ?q 3)", 
 shape("definition-temp-top", DEF_INC, "(list ?a ?g)", "(5 4)", tdefs="(define ?g 4) (def-inc ?a ?g)", top=("g", "a"))
 shape("definition-temp-body", DEF_INC, "(let ((?g 4)) (%scope (?g) (let () (%scope (?a) (def-inc ?a ?g) (list ?a ?g)))))",
       "(5 4)", idef=("a",))
+shape("introduced-definition", DEF_VIA_TMP,
+      "(let ((?x 10)) (%scope (?x) (let () (%scope (?a) (def-via-tmp ?a ?x) (list ?a ?x)))))", "(11 10)", idef=("a",))
+shape("introduced-definition-twice", DEF_VIA_TMP,
+      "(let ((?x 10)) (%scope (?x) (let () (%scope (?a ?b) (def-via-tmp ?a ?x) (def-via-tmp ?b ?a) (list ?a ?b ?x)))))",
+      "(11 12 10)", idef=("a", "b"))
+shape("custom-ellipsis", MY_LIST_CE, "(let ((?x 1) (?y 2)) (%scope (?x ?y) (my-list (?x ?y) (?y 3))))", "((1 . 2) (2 . 3))")
+shape("shadow-macro-keyword", MY_OR, "(cons (let ((?x 5) (?y 1)) (%scope (?x ?y) (+ ?x ?y))) (my-or #f 2))", "(6 . 2)",
+      kinds=("S", "ER"))
 shape("binder-vs-free-ref", WITH_K, "(with-k ?v (%scope (?v) (+ ?v ?v)))", "102", defs=K0)
 shape("lambda-binder", MY_LET1, "(let ((?x 2)) (%scope (?x) (my-let1 ?y (+ ?x 1) (%scope (?y) (* ?x ?y)))))", "6")
 shape("recursive-binders", MY_LETS,
